@@ -1051,6 +1051,13 @@ def check_C05(o):
             for g in spec["graphs"]:
                 want = expected_instances(spec, g)
                 have = [n for n in by_graph if n.split("@")[0] == g["name"]]
+                open_cond = any(t.get("cond") for t in g["tasks"]) and not any(
+                    t.get("term") for t in g["tasks"])
+                if g["release"]["policy"] == "closed_loop" and open_cond:
+                    # a conditional without a join always leaves a sink on the untaken branch
+                    # uncompleted, so the graph never "finishes" and a closed loop has nothing to
+                    # wait for: the statement does not say how many invocations must follow
+                    continue
                 if want is not None and len(have) != want:
                     v.append(("end.missing_graph_invocations", "graph %s: release policy %s "
                               "asks for %d instances, the run had %s" % (
@@ -1964,7 +1971,7 @@ def gen_worlds(pid, tier, seed):
     rng = random.Random("%s/%s/%d" % (pid, "worlds", seed))
     n = {"quick": 224, "thorough": 2240}[tier]
     if pid == "C09":
-        n = {"quick": 56, "thorough": 560}[tier]
+        n = {"quick": 42, "thorough": 280}[tier]
     modes = ["hand", "hand", "jg", "yaml"]
     dls = ["loose", "tight", "tight1", "hopeless", "mixed"]
     scheds = ["EDF", "FIFO", "LSF"]
@@ -2053,14 +2060,15 @@ def gen_worlds(pid, tier, seed):
         worlds.append(spec)
     if pid == "C05":
         worlds.extend(zero_runtime_worlds(tier))
+        worlds.extend(freq0_worlds(tier))
     if pid == "C12":
         worlds.extend(ilp_worlds(tier))
     return worlds
 
 
 def zero_runtime_worlds(tier):
-    """worlds with a zero-runtime strategy (the loader's default when `runtime` is omitted), and
-    scheduler_frequency 0 with a zero scheduler runtime; always run in a subprocess"""
+    """worlds with a zero-runtime strategy (the loader's default when `runtime` is omitted);
+    always run in a subprocess"""
     out = []
     combos = [("single", "c1", "EDF", "yaml", True), ("chain2", "c1", "FIFO", "hand", False),
               ("single", "c2", "LSF", "jg", False), ("fork", "c1c1", "EDF", "hand", False),
@@ -2078,9 +2086,29 @@ def zero_runtime_worlds(tier):
             g["tasks"][zi]["strategies"][0]["rt_default"] = True  # YAML omits `runtime`
         out.append({"id": "C05-zero-%02d" % k, "seed": k, "mode": mode, "graphs": [g],
                     "pools": POOLS[pool], "horizon": 12,
-                    "sched": {"name": sched, "enforce": False, "runtime": 0,
-                              "freq": 0 if k % 3 == 2 else -1},
+                    "sched": {"name": sched, "enforce": False, "runtime": 0, "freq": -1},
                     "timeout": None, "isolate": True})
+    return out
+
+
+def freq0_worlds(tier):
+    """scheduler_frequency 0 with a zero scheduler runtime, on clusters where a placement can be
+    delayed (WORKER_NOT_READY retry): the next scheduler start must still move forward in time"""
+    out = []
+    shapes = ["fork", "indep2", "join"] if tier == "quick" else [
+        "fork", "indep2", "join", "diamond", "fork3x", "chain2"]
+    k = 0
+    for shape in shapes:
+        for pool in ("c1g1,c1|g1", "c2g1|c1", "c1g1"):
+            for sched in ("LSF", "EDF"):
+                for strat in (("gpu_or_cpu",) if tier == "quick" else ("gpu_or_cpu", "two")):
+                    rel = {"policy": "fixed", "period": 0, "n": 2, "start": 1}
+                    g = make_graph("G0", shape, strat, (2, 5, 1, 5), "loose", rel, "jg")
+                    out.append({"id": "C05-freq0-%02d" % k, "seed": k, "mode": "jg",
+                                "graphs": [g], "pools": POOLS[pool], "horizon": 12,
+                                "sched": {"name": sched, "enforce": False, "runtime": 0,
+                                          "freq": 0}, "timeout": None})
+                    k += 1
     return out
 
 
@@ -2225,8 +2253,10 @@ def main():
     R.exhaustive = False
     import multiprocessing as mp
 
+    if pid != "C09":
+        repo()  # import the repository once, before forking the workers
     ctx = mp.get_context("fork")
-    with ctx.Pool(14, maxtasksperchild=40) as pool:
+    with ctx.Pool(14) as pool:
         results = pool.map(work, [(w, pid) for w in worlds], chunksize=1)
 
     def size(spec):
